@@ -200,6 +200,33 @@ fn check_object(f: u64, t: u16, z: u8, n: u16, al: u8, r: u32) -> Result<(), Str
         }
         i += (b.K + r) as usize;
     }
+    // ... and what a stand-alone block encoder (own plan from the cache, and an explicitly generated plan) gives
+    // for the same bytes: plans handed from block to block inside Encoder::new must be interchangeable
+    let mut i = 0;
+    for b in lay.iter() {
+        let mut bytes: Vec<u8> = data[(b.start as usize).min(data.len())..(b.end as usize).min(data.len())].to_vec();
+        bytes.resize(b.K as usize * t as usize, 0);
+        let kk = b.K;
+        let alone = guarded(|| SourceBlockEncoder::new(b.sbn, &cfg, &bytes)).map_err(|e| format!("({},{},{},{},{}): stand-alone SourceBlockEncoder::new for block {} panicked: {}", f, t, z, n, al, b.sbn, e))?;
+        let far = (1u32 << 24) - 1;
+        let own: Vec<EncodingPacket> = alone.source_packets().into_iter().chain(alone.repair_packets(0, r)).collect();
+        if pk[i..i + (kk + r) as usize] != own[..] {
+            let first = (0..(kk + r) as usize).find(|&j| pk[i + j] != own[j]).unwrap_or(0);
+            return Err(format!("({},{},{},{},{}) r={}: block {} (K={}): packet with ESI {} from the object encoder differs from the packet a stand-alone encoder of the same block produces", f, t, z, n, al, r, b.sbn, kk, first));
+        }
+        let be = &enc.get_block_encoders()[b.sbn as usize];
+        if r > 0 {
+            let plan = SourceBlockEncodingPlan::generate(kk as u16);
+            let planned = SourceBlockEncoder::with_encoding_plan(b.sbn, &cfg, &bytes, &plan);
+            for (s0, cnt) in [(0u32, r + 2), (far - kk - 1, 2)] {
+                let a = be.repair_packets(s0, cnt);
+                if a != alone.repair_packets(s0, cnt) || a != planned.repair_packets(s0, cnt) {
+                    return Err(format!("({},{},{},{},{}): block {} (K={}): repair window ({}, {}) differs between the object's block encoder, a stand-alone encoder and an encoder with a freshly generated plan", f, t, z, n, al, b.sbn, kk, s0, cnt));
+                }
+            }
+        }
+        i += (kk + r) as usize;
+    }
     Ok(())
 }
 
@@ -261,15 +288,33 @@ pub fn run(ctx: &Ctx) -> i32 {
             }
         }
     });
+    // tall objects: block sizes straddling the table values K' (KL = KS + 1 on both sides of a K')
+    let mut tall: Vec<(u64, u16, u8, u16, u8)> = vec![];
+    let max_kt: u64 = if ctx.quick() { 330 } else { 1300 };
+    for kt in 2..=max_kt {
+        for z in 2..=(if ctx.quick() { 5u64 } else { 7 }) {
+            if z > kt || (ctx.thorough() && kt > 700 && z > 4) { continue; }
+            tall.push((kt, 1, z as u8, 1, 1));
+            if kt % 3 == 0 { tall.push((kt * 2 - 1, 2, z as u8, 2, 1)); }
+        }
+    }
+    par_for_chunk(tall.len(), 8, |i| {
+        let (f, t, z, n, al) = tall[i];
+        st.eval(1);
+        match check_object(f, t, z, n, al, 2) {
+            Ok(()) => { st.count("tall_object_lists", 1); st.nontriv(1); }
+            Err(m) => st.violation(format!("object:{}:{}:{}:{}:{}:{}", f, t, z, n, al, 2), m, json!({"kind":"object","F":f,"T":t,"Z":z,"N":n,"Al":al,"r":2})),
+        }
+    });
     st.sample(json!({"kind":"block","K":10,"T":5,"windows":"all (s,n) with s+n<=24; far windows ending at ESI 2^24-1; 6 encoders (cache, 2 fresh plans, clone, unplanned, cache again) packet-identical"}));
     st.sample(json!({"kind":"stream","K":10,"packets":(1u32<<24)-10}));
     st.sample(json!({"kind":"object","config":[23,4,3,2,2],"r":3,"ids":"SBN0: 0..K0+2, SBN1: 0..K1+2, SBN2: ..."}));
     finish(ctx, &st, Finish {
         level: "exploration",
-        rule: format!("for K in the {} ladder (T in {{1,5}}): every window (s,n), s+n<=24, equals the n single requests; overlapping windows agree; windows ending at ESI 2^24-1; six ways to obtain an encoder for the same K give identical packets; whole repair stream (2^24-K packets) of K in {} tiled by 65536 and by 4099 and compared per ESI with the reference; object level: every configuration of a (T<={},Kt<=6,Z<=3) box x r in {{0,1,3}}: id list = per block ESIs 0..K+r-1 with that block's SBN.", if ctx.quick() { "mid" } else { "large" }, if ctx.quick() { "{10}" } else { "{10,257}" }, ts.len()),
+        rule: format!("for K in the {} ladder (T in {{1,5}}): every window (s,n), s+n<=24, equals the n single requests; overlapping windows agree; windows ending at ESI 2^24-1; six ways to obtain an encoder for the same K give identical packets; whole repair stream (2^24-K packets) of K in {} tiled by 65536 and by 4099 and compared per ESI with the reference; object level: every configuration of a (T<={},Kt<=6,Z<=3) box x r in {{0,1,3}}: id list = per block ESIs 0..K+r-1 with that block's SBN, and every block's packets (source, repair windows near and at ESI 2^24-1) equal those of a stand-alone SourceBlockEncoder::new and of with_encoding_plan(freshly generated plan) for the same bytes; the same for {} tall objects (every symbol count 2..={}, Z=2..{}, so that block sizes KL=KS+1 straddle every table size K' in range).", if ctx.quick() { "mid" } else { "large" }, if ctx.quick() { "{10}" } else { "{10,257}" }, ts.len(), tall.len(), max_kt, if ctx.quick() { 5 } else { 7 }),
         exhaustive: false,
         assumptions: vec!["requests with K+s+n > 2^24 are outside the property's quantifier and are not judged".into()],
         extra: Map::new(),
-        must_be_nonzero: vec!["blocks", "stream_packets", "object_lists"],
+        must_be_nonzero: vec!["blocks", "stream_packets", "object_lists", "tall_object_lists"],
     }, replay)
 }
